@@ -19,8 +19,8 @@ func runC18(r *R) {
 	r.Assume = []string{"a send on a channel with capacity 1 and a single consumer delivers the first offered value"}
 
 	// ---- R1, R2
-	r.Rule("C18-R1", "CollectionGet (by PDH): `first <- c` and the callback's nil return only under be.CollectionGet err==nil ∧ (pdh == options.UUID ∨ HasPrefix(options.UUID, pdh+\"+\")), pdh = PortableDataHash(this answer's manifest) computed before rewriting; result delivered only if tryLocalThenRemotes == nil", 3)
-	r.Rule("C18-R2", "rewriteManifest applied only to remote answers (remoteID != \"\" / UUID[:5] != ClusterID) with that cluster's id; it rewrites +A→+R<id>- only inside block-locator tokens", 3)
+	r.Rule("C18-R1", "CollectionGet (by PDH): `first <- c` and the callback's nil return only under be.CollectionGet err==nil ∧ (pdh == options.UUID ∨ HasPrefix(options.UUID, pdh+\"+\")), pdh = PortableDataHash(this answer's manifest) computed before rewriting; result delivered only if tryLocalThenRemotes == nil", 1)
+	r.Rule("C18-R2", "rewriteManifest applied only to remote answers (remoteID != \"\" / UUID[:5] != ClusterID) with that cluster's id; it rewrites +A→+R<id>- only inside block-locator tokens", 2)
 	if outer := r.NeedFn("C18-R1", connT+"CollectionGet"); outer != nil {
 		var cb *ssa.Function
 		for _, cl := range Closures(outer) {
@@ -128,20 +128,17 @@ func runC18(r *R) {
 
 	if fn := r.NeedFn("C18-R2", fed+".rewriteManifest"); fn != nil {
 		okTok := false
-		for _, c := range CallsIn(fn, "regexp.MustCompile") {
-			if lit, ok := ConstString(c.Common().Args[0]); ok && regexCanon(lit) == regexCanon(` [0-9a-f]{32}\+[^ ]*`) {
-				okTok = true
-			}
+		for _, c := range CallsIn(fn, "(*regexp.Regexp).ReplaceAllStringFunc") {
+			lit, ok := r.W.RegexLiteralOf(c.Common().Args[0])
+			okTok = ok && regexCanon(lit) == regexCanon(` [0-9a-f]{32}\+[^ ]*`)
 		}
 		okRepl := false
 		for _, cl := range Closures(fn) {
 			for _, c := range CallsIn(cl, "strings.Replace") {
 				a := c.Common().Args
 				from, _ := ConstString(a[1])
-				parts := ConcatParts(a[2])
-				p0, _ := ConstString(parts[0])
-				pl, _ := ConstString(parts[len(parts)-1])
-				if same(a[0], paramOf(cl, "tok")) && from == "+A" && len(parts) == 3 && p0 == "+R" && pl == "-" && Canon(parts[1]) == "free:remoteID" {
+				parts := SeqCanon(ByteSeq(a[2]))
+				if same(a[0], paramOf(cl, "tok")) && from == "+A" && len(parts) == 3 && parts[0] == `"+R"` && parts[2] == `"-"` && parts[1] == "param:remoteID" {
 					okRepl = true
 				}
 			}
@@ -150,7 +147,7 @@ func runC18(r *R) {
 	}
 
 	// ---- R3
-	r.Rule("C18-R3", "tryLocalThenRemotes: nil only for a nil callback result; exactly one result per remote is collected (cap(errchan) = len(remotes), one send per goroutine); cancel deferred", 4)
+	r.Rule("C18-R3", "tryLocalThenRemotes: nil only for a nil callback result; exactly one result per remote is collected (cap(errchan) = len(remotes), one send per goroutine); cancel deferred", 1)
 	if fn := r.NeedFn("C18-R3", connT+"tryLocalThenRemotes"); fn != nil {
 		for _, ret := range Returns(fn) {
 			succ, _ := IsSuccessReturn(ret)
@@ -160,8 +157,16 @@ func runC18(r *R) {
 			g, _ := Guard(fn, nil, ret, EqC("err == nil", func(v ssa.Value) bool {
 				u, ok := Resolve1(v).(*ssa.UnOp)
 				return ok && u.Op.String() == "<-" && strings.Contains(Canon(u.X), "errchan") || isChanRecvOf(v, "errchan")
+			}, NilV), EqC("fn(ctx, \"\", conn.local) == nil", func(v ssa.Value) bool {
+				// the result of calling the callback parameter directly (the local attempt)
+				c, ok := Resolve1(v).(*ssa.Call)
+				if !ok || c.Call.IsInvoke() {
+					return false
+				}
+				_, isP := ResolveOnce(c.Call.Value).(*ssa.Parameter) // captured by the goroutines too, hence a cell
+				return isP
 			}, NilV))
-			r.Check(g, "C18-R3", fn, "return nil", ret.Pos(), "only when a remote callback returned nil", "success is reported although no backend succeeded")
+			r.Check(g, "C18-R3", fn, "return nil", ret.Pos(), "only when a callback (local or remote) returned nil", "success is reported although no backend succeeded")
 		}
 		okCap := false
 		allInstrs(fn, func(in ssa.Instruction) {
@@ -234,7 +239,7 @@ func runC18(r *R) {
 	}
 
 	// ---- R4
-	r.Rule("C18-R4", "legacy rewriteSignatures: the rewritten body is returned only when computedHash == expectHash and expectHash is empty or equals the record's portable_data_hash; fetchRemoteCollectionByPDH forwards only verified responses", 2)
+	r.Rule("C18-R4", "legacy rewriteSignatures: the rewritten body is returned only when computedHash == expectHash and expectHash is empty or equals the record's portable_data_hash; fetchRemoteCollectionByPDH forwards only verified responses", 1)
 	if fn := r.NeedFn("C18-R4", ctl+".rewriteSignatures"); fn != nil {
 		n := 0
 		for _, ret := range Returns(fn) {
